@@ -11,6 +11,7 @@ Directives
   //@ const <src> <modpath|-> <Name>
   //@ fn    <src> <modpath|-> /<impl header regex>/ <fn name>
   //@   result: r                         name the return value              (R4)
+  //@   contract: stubs/<f>.rs            take requires/ensures from the shared stub file (same text the callers assume)
   //@   generics: <'nom>                  add generics to the fn (trait impl -> inherent, R6)
   //@   requires: / ensures: / decreases: contract clauses (continuation lines: //@     ...)
   //@   rules: R1 R7 ...                  token rules to apply to the body (see RULES)
@@ -213,6 +214,24 @@ class Extractor:
         self.meta["types"].append({"name": name, "src": src, "sha256": hashlib.sha256(raw.encode()).hexdigest()[:16]})
         return txt + "\n"
 
+    def do_stub(self, rel):
+        """external_body stub whose signature+contract live in a shared file; the unit that proves
+        the function takes its contract from the same file (`contract:` option), so they cannot drift."""
+        txt = open(os.path.join(CONTRACTS, rel)).read().rstrip()
+        self.meta.setdefault("stubs", []).append(rel)
+        return "#[verifier::external_body]\n" + txt + "\n{ unimplemented!() }\n"
+
+    @staticmethod
+    def contract_of(rel):
+        txt = open(os.path.join(CONTRACTS, rel)).read()
+        lines = [l for l in txt.split("\n") if not l.strip().startswith("//")]
+        txt = "\n".join(lines)
+        m = re.search(r"^\s*(requires|ensures|decreases)\b", txt, re.M)
+        if not m:
+            raise TemplateError("no contract clauses in " + rel)
+        rn = re.search(r"->\s*\(\s*(\w+)\s*:", txt[:m.start()])
+        return (rn.group(1) if rn else None), txt[m.start():].rstrip() + "\n"
+
     def do_const(self, args):
         src, modpath, name = args[:3]
         s = self.source(src)
@@ -238,9 +257,13 @@ class Extractor:
         hits = {}
         contract = []
         result_name = None
+        contract_block = ""
         for key, val in opts:
             if key == "result":
                 result_name = val.strip()
+            if key == "contract":
+                rn, contract_block = self.contract_of(val.strip())
+                result_name = rn or result_name
         # ---- signature
         if result_name:
             msig = mask(sig)
@@ -362,7 +385,9 @@ class Extractor:
             cl_ = [v for k, v in contract if k == kind]
             if cl_:
                 ctext += "    %s\n" % kind + "".join("        %s,\n" % v for v in cl_)
-        return sig + "\n" + ctext + body + "\n"
+        if contract_block and ctext:
+            raise TemplateError("fn %s: both contract: file and inline clauses" % fname)
+        return sig + "\n" + (contract_block or ctext) + body + "\n"
 
     # ------------------------------------------------------------------
     def expand(self, path, depth=0):
@@ -381,6 +406,8 @@ class Extractor:
             d = st[3:].strip()
             if d.startswith("include "):
                 out.append(self.expand(os.path.join(CONTRACTS, d.split()[1]), depth + 1))
+            elif d.startswith("stub "):
+                out.append(self.do_stub(d.split()[1]))
             elif d.startswith("type "):
                 out.append(self.do_type(d.split()[1:]))
             elif d.startswith("const "):
